@@ -116,6 +116,71 @@ func (env *psEnv) runPS(c *rt.C, prog []ref.Tok, fpPrefix string, withSystem boo
 	return psOutcome{"ok"}
 }
 
+// runPSHistory executes the programs one after the other on one reference
+// interpreter and one library interpreter (separate Execute calls) and
+// compares call by call: the error outcome of every call, and the state after
+// every call that ended without error or by stop. After a call that ended with
+// an error only the error name is prescribed, so both operand stacks are
+// cleared before the next call (dictionary stacks and contents stay).
+func (env *psEnv) runPSHistory(c *rt.C, progs [][]ref.Tok, fpPrefix string) string {
+	var texts []string
+	for _, p := range progs {
+		texts = append(texts, ref.RenderTokens(p))
+	}
+	c.SetDetail(func() string { return "programs, one Execute call each:\n  " + strings.Join(texts, "\n  ") })
+	model := ref.NewInterp(env.stdEnc)
+	lib := postscript.NewInterpreter()
+	lib.MaxOps = 2_000_000
+	last := "ok"
+	for i, prog := range progs {
+		merr := model.Run(prog)
+		if _, ok := merr.(*ref.Unsupported); ok {
+			c.Skip("unsupported_by_design")
+			return "unsupported"
+		}
+		lerr := lib.ExecuteString(texts[i])
+		c.Eval()
+		where := fmt.Sprintf("call %d of %d", i+1, len(progs))
+		switch e := merr.(type) {
+		case *ref.PSErr:
+			got := errName(lerr)
+			if lerr == nil {
+				c.Violation(fmt.Sprintf("%s|missing-error|%s", fpPrefix, strings.Join(e.Names, ",")),
+					fmt.Sprintf("%s: the reference prescribes the error %v (at %s); the library returned no error\nprograms:\n  %s", where, e.Names, e.Where, strings.Join(texts, "\n  ")), "")
+				return "violation"
+			} else if !e.Has(got) {
+				c.Violation(fmt.Sprintf("%s|wrong-error|%s|want:%s", fpPrefix, got, strings.Join(e.Names, ",")),
+					fmt.Sprintf("%s: the reference prescribes the error %v (at %s); the library failed with %q\nprograms:\n  %s", where, e.Names, e.Where, lerr.Error(), strings.Join(texts, "\n  ")), "")
+				return "violation"
+			}
+			// only the error is prescribed: start the next call from empty operand stacks
+			model.Stack = model.Stack[:0]
+			lib.Stack = lib.Stack[:0]
+			last = "error:" + e.Names[0]
+			continue
+		case nil:
+			last = "ok"
+		default:
+			if !ref.Stopped(merr) {
+				panic(fmt.Sprintf("unexpected model error %v", merr))
+			}
+			last = "stopped"
+		}
+		if lerr != nil {
+			c.Violation(fmt.Sprintf("%s|unexpected-error|%s", fpPrefix, errName(lerr)),
+				fmt.Sprintf("%s: the reference executes the program without error; the library failed with %q\nprograms:\n  %s", where, lerr.Error(), strings.Join(texts, "\n  ")), "")
+			return "violation"
+		}
+		if diffs := compareStates(env.bt, lib, model, false); len(diffs) > 0 {
+			c.Violation(fmt.Sprintf("%s|state|%s", fpPrefix, diffClass(diffs[0])),
+				fmt.Sprintf("%s: state differs from the reference:\n  %s\nprograms:\n  %s\nlibrary stack:   %s\nreference stack: %s",
+					where, strings.Join(diffs, "\n  "), strings.Join(texts, "\n  "), libStackShow(lib), modelStackShow(model)), "")
+			return "violation"
+		}
+	}
+	return last
+}
+
 // diffClass reduces a difference message to its location class.
 func diffClass(d string) string {
 	loc := d
@@ -202,6 +267,11 @@ func c02Pool() (full, reduced []poolItem) {
 	add(false, "<<>>", "0 dict")
 	add(true, "D", "D")
 	add(false, "dict-lit", "<< /k 1 /A 2 >>")
+	// dictionaries of equal size whose keys look like numbers, and one with the same content as another pool dictionary (identity, not content, decides eq)
+	add(false, "dict-x", "<< /x 1 >>")
+	add(false, "dict-0", "<< /0 1 >>")
+	add(false, "dict-01", "<< /0 1 /1 (s) >>")
+	add(false, "dict-like-D", "<< /x 1 /y (s) >>")
 	add(false, "userdict", "userdict")
 	add(true, "proc", "{1 2 add}")
 	add(false, "mark", "mark")
